@@ -345,6 +345,7 @@ def aug(op, v):
 def setup(ctx):
     from smartquery import SqParser
     ctx.P = SqParser()
+    ctx.PC = SqParser(parse_cache={})     # half of the shapes are evaluated on a caching parser: the same tree is re-evaluated under every assignment
     ctx.templates = arity_templates()
     ctx.log = []
 
@@ -421,6 +422,8 @@ def run_case(case, ctx):
     else:
         assignments = [tuple(r.randrange(2) for _ in range(k)) for _ in range(64 if not ctx.quick else 12)]
     statement = s[0] in ('setitem', 'dsetitem', 'setitemop', 'assign', 'augassign')
+    cached = sub % 2 == 0
+    ctx.count('shapes_on_caching_parser' if cached else 'shapes_on_plain_parser')
     for bits in assignments:
         for mode in ('bool', 'obj'):
             for raise_at in [None] + (list(range(k)) if (not ctx.quick or r.random() < 0.25) else [r.randrange(k)] if k else []):
@@ -436,7 +439,7 @@ def run_case(case, ctx):
                 ctx.log[:] = []
                 ctx.plan, ctx.raise_at = plan, raise_at
                 try:
-                    got = ('value', ctx.P.eval(src, host(ctx, mode), None, 10 ** 4))
+                    got = ('value', (ctx.PC if cached else ctx.P).eval(src, host(ctx, mode), None, 10 ** 4))
                 except ProbeError:
                     got = ('probe-error', None)
                 except Exception as e:
